@@ -17,7 +17,7 @@ CLAIMED = {
             "seeded deterministic simulation: interval-overlap check in virtual time"),
     "C05": ("travsim", "3.7", "history check of every removal/sync request at the state-control seam against the executions running or pending at that instant, and against the producers' removal marking",
             "seeded deterministic simulation: history check of removal requests vs dependant intervals"),
-    "C08": ("travsim", "3.10", "invariant at every simulated start: worker identity, access parameters, listed sources == workers with a passing producer result",
+    "C08": ("travsim", "3.10", "invariant at every simulated start and state-control request: worker identity, access parameters, the connection obtained from the real session cache, listed sources == workers with a passing producer result",
             "seeded deterministic simulation: start-event invariant against the run's own history"),
 }
 
@@ -31,7 +31,7 @@ CLAIMED["C14"] = ("locksim", "5", "fault enumeration: a crash at every yield poi
 
 CLAIMED["C12"] = ("statesim", "4.1", "operation-by-operation comparison of the real check/get/set/unset/push/pop with the README policy table and a set-of-names store model over seeded histories, with backend errors injected at the k-th backend call",
                   "seeded simulated histories with injected backend faults checked step by step against an executable reference model")
-CLAIMED["C13"] = ("statesim", "4.2", "simulated cluster of pools (workers on gateways/hosts, shared and swarm pools, evolving placement, lost writes, invalid caches); the fake transport's contact log is compared with an independent scope/proximity model",
+CLAIMED["C13"] = ("statesim", "4.2", "simulated cluster of pools (workers on gateways/hosts, shared and swarm pools, evolving placement, lost writes, invalid caches); the fake transport's contact log is compared with an independent scope/proximity model; plus file-level histories where the real chain transport runs over an in-memory file store (foreign saves of single files, lost states, a crash in the middle of a download followed by a retry) and the cache must equal the chosen source afterwards",
                   "seeded simulated multi-party store histories; contact log vs independent scope model")
 CLAIMED["C17"] = ("statesim", "4.3", "histories of per-image and per-vm state operations with crashes between the per-image steps and lost writes over vms with 1-3 images; the real listing code (both regexes, intersection across images, memory files) is compared with a set model after every step",
                   "seeded crash/lost-write histories over a fake disk; listing vs set model after every step")
